@@ -456,3 +456,31 @@ Proof.
   intros r a N F E. specialize (N a F). rewrite E in N.
   destruct (attr_get a (rattrs r)) as [|v [|v2 l]]; cbn; auto. contradiction.
 Qed.
+
+(* ---- back to the strict form: NormalE and at most one member is Normal *)
+Lemma attr_get_same_uri : forall a b d, qn_uri a = qn_uri b -> attr_get a d = attr_get b d.
+Proof.
+  intros a b d E. induction d as [|[k vs] d IH]; cbn [attr_get]; [reflexivity|].
+  unfold qn_eqb. rewrite E. destruct (String.eqb (qn_uri b) (qn_uri k)); [reflexivity | exact IH].
+Qed.
+
+Lemma NormalE_single_member_Normal : forall r,
+  NormalE r -> length (attr_get (prov_qn "entity") (rattrs r)) <= 1 -> Normal r.
+Proof.
+  intros r N L a Fa. specialize (N a Fa). destruct (is_prov_name "entity" a) eqn:E; [|exact N].
+  assert (U : qn_uri a = qn_uri (prov_qn "entity")).
+  { unfold is_prov_name in E. apply String.eqb_eq in E. rewrite E. reflexivity. }
+  rewrite (attr_get_same_uri a (prov_qn "entity") _ U) in N |- *.
+  destruct (attr_get (prov_qn "entity") (rattrs r)) as [|v [|v2 l]]; [exact I | inversion N; assumption | cbn in L; inversion L as [|? L']; inversion L'].
+Qed.
+
+(* every record of a document the PROV-JSON reader builds *)
+Theorem decoded_records_normalE : forall ft t d b r,
+  decode_doc ft t = OK d -> In b (dmain d :: map snd (dbundles d)) -> In r (brecs b) -> NormalE r.
+Proof.
+  intros ft t d b r H Hb Hr. destruct (decode_doc_DNormal _ _ _ H) as [M B].
+  destruct Hb as [<-|Hb].
+  - unfold BNormal in M. rewrite Forall_forall in M. exact (M r Hr).
+  - apply in_map_iff in Hb. destruct Hb as [[k b0] [E Hk]]. cbn in E. subst b0.
+    rewrite Forall_forall in B. specialize (B (k, b) Hk). cbn in B. unfold BNormal in B. rewrite Forall_forall in B. exact (B r Hr).
+Qed.
